@@ -150,9 +150,9 @@ Qed.
 
 Definition skel (c : client) : str * option str * bool := (c_id c, c_group c, c_closed c).
 
-Lemma sinv_ext : forall w w',
+Lemma sinv_ext_names : forall w w',
   Sinv w ->
-  map g_name (w_groups w') = map g_name (w_groups w) ->
+  NoDup (map g_name (w_groups w')) ->
   (forall g, members w' g = members w g) ->
   (forall i, option_map skel (get_client w' i) = option_map skel (get_client w i)) ->
   Sinv w'.
@@ -164,7 +164,7 @@ Proof.
     destruct (get_client w i) as [c|]; cbn in Hc; [|discriminate].
     exists c. split; [reflexivity|]. congruence. }
   constructor.
-  - rewrite Hn. apply (s_names w HS).
+  - exact Hn.
   - intros h c' g E. destruct (Hsk h c' E) as (c & Ec & Es). rewrite Hm.
     unfold skel in Es. replace (c_group c') with (c_group c) by congruence.
     apply (s_memb w HS); exact Ec.
@@ -179,6 +179,16 @@ Proof.
     unfold skel in *. eapply (s_ids w HS g h1 h2 c1 c2); eauto. congruence.
   - intros h c' E. destruct (Hsk h c' E) as (c & Ec & Es). unfold skel in Es.
     replace (c_id c') with (c_id c) by congruence. apply (s_noq w HS h c Ec).
+Qed.
+
+Lemma sinv_ext : forall w w',
+  Sinv w ->
+  map g_name (w_groups w') = map g_name (w_groups w) ->
+  (forall g, members w' g = members w g) ->
+  (forall i, option_map skel (get_client w' i) = option_map skel (get_client w i)) ->
+  Sinv w'.
+Proof.
+  intros w w' HS Hn Hm Hc. eapply sinv_ext_names; eauto. rewrite Hn. apply (s_names w HS).
 Qed.
 
 Lemma cext_skel : forall c c', cext c c' -> skel c' = skel c.
@@ -515,4 +525,74 @@ Proof.
     + intros H. apply nm_from_reset in H. eapply nm_from_mono; [|exact H]. auto.
     + auto.
   - cbn [app c_queue set_out]. intros [E | H]; [discriminate E | exact H].
+Qed.
+
+(* with nothing pending, the pumping client is irrelevant *)
+Lemma inv_ph_nil : forall w s ph ph' exc, Inv_p w s ph [] exc -> Inv_p w s ph' [] exc.
+Proof.
+  intros w s ph ph' exc [HS HV]. split; [exact HS|]. constructor.
+  - apply (v_seen _ _ _ _ _ HV).
+  - intros h c id Hc Hcl Hg. rewrite effq_nil. rewrite <- (effq_nil ph h c).
+    apply (v_nm _ _ _ _ _ HV h c id Hc Hcl Hg).
+  - intros h c g id Hc Hg. rewrite effq_nil. rewrite <- (effq_nil ph h c).
+    destruct (v_view _ _ _ _ _ HV h c g id Hc Hg) as [H | [H | H]]; auto.
+    right. left. destruct H as (x & cx & H1 & H2 & H3 & H4). exists x, cx.
+    rewrite effq_nil in *. auto.
+Qed.
+
+(* a client in no group may change username, permissions and data at will *)
+Lemma inv_nonmember_upd : forall w s ph pend h c f,
+  Inv_p w s ph pend None -> get_client w h = Some c -> c_group c = None ->
+  c_id (f c) = c_id c -> c_group (f c) = None -> c_closed (f c) = c_closed c ->
+  c_queue (f c) = c_queue c -> c_out (f c) = c_out c ->
+  Inv_p (upd w h f) s ph pend None.
+Proof.
+  intros w s ph pend h c f [HS HV] Hc Hg F1 F2 F3 F4 F5.
+  set (w' := upd w h f).
+  assert (Hc' : get_client w' h = Some (f c)) by (apply get_client_upd_self; exact Hc).
+  assert (Ho : forall i, i <> h -> get_client w' i = get_client w i)
+    by (intros; apply get_client_upd_other; assumption).
+  assert (Hnm : forall g, ~ In h (members w g)).
+  { intros g Hin. apply (s_memb w HS h c g Hc) in Hin. congruence. }
+  assert (HS' : Sinv w').
+  { eapply sinv_ext; [exact HS | reflexivity | reflexivity |]. intros i.
+    destruct (Nat.eq_dec i h) as [->|Hne]; [|rewrite (Ho i Hne); reflexivity].
+    rewrite Hc, Hc'. cbn. unfold skel. rewrite F1, F2, F3, Hg. reflexivity. }
+  assert (Ht : forall g id, truth w' g id = truth w g id).
+  { intros. apply truth_ext; try reflexivity. intros x Hx.
+    assert (x <> h) by (intros ->; eapply Hnm; eauto). rewrite (Ho x H). reflexivity. }
+  split; [exact HS'|]. constructor.
+  - intros i Hi. apply (v_seen _ _ _ _ _ HV). destruct (Nat.eq_dec i h) as [->|Hne]; [congruence|].
+    rewrite <- (Ho i Hne). exact Hi.
+  - intros i ci id Hi Hcl Hgr. destruct (Nat.eq_dec i h) as [->|Hne].
+    + rewrite Hc' in Hi. inversion Hi; subst ci.
+      assert (E1 : effq ph pend h (f c) = effq ph pend h c) by (unfold effq; rewrite F4; reflexivity).
+      assert (E2 : sentof s h (f c) = sentof s h c) by (unfold sentof; rewrite F5; reflexivity).
+      rewrite E1, E2. apply (v_nm _ _ _ _ _ HV h c id Hc); [congruence | exact Hg].
+    + rewrite (Ho i Hne) in Hi. apply (v_nm _ _ _ _ _ HV i ci id Hi Hcl Hgr).
+  - intros i ci g id Hi Hgr. destruct (Nat.eq_dec i h) as [->|Hne].
+    { rewrite Hc' in Hi. inversion Hi; subst ci. congruence. }
+    rewrite (Ho i Hne) in Hi. rewrite Ht.
+    destruct (v_view _ _ _ _ _ HV i ci g id Hi Hgr) as [H | [H | H]]; [left; exact H | | discriminate H].
+    right. left. destruct H as (x & cx & Hx1 & Hx2 & Hx3 & Hx4).
+    assert (Hxh : x <> h) by (intros ->; eapply Hnm; eauto).
+    exists x, cx. rewrite (Ho x Hxh). auto.
+Qed.
+
+(* a client in no group is told that its join failed *)
+Lemma inv_send_fail : forall w s ph h c g u p e v l,
+  Inv_p w s ph [] None -> get_client w h = Some c -> c_group c = None ->
+  Inv_p (send w h (out_joined "fail" g u p e v l)) s ph [] None.
+Proof.
+  intros w s ph h c g u p e v l HI Hc Hg.
+  apply (inv_ph_nil _ _ h ph). apply (inv_ph_nil _ _ ph h) in HI.
+  eapply (inv_local w _ s h [] [] None c (set_out c (c_out c ++ [out_joined "fail" g u p e v l])) HI Hc).
+  - apply get_client_send_self. exact Hc.
+  - reflexivity.
+  - intros. apply get_client_send_other. assumption.
+  - reflexivity.
+  - intros g0 id E0. congruence.
+  - intros _ id H. unfold sentof. cbn [c_out set_out c_queue app]. rewrite app_assoc, key_sent_joined.
+    cbn. eapply nm_from_mono; [|exact H]. auto.
+  - auto.
 Qed.
